@@ -2,6 +2,7 @@ package engines
 
 import (
 	"fmt"
+	"runtime"
 	"strings"
 	"time"
 
@@ -20,6 +21,7 @@ type c06Probe struct {
 	ctx   int
 	site  int
 	depth int // context parameter (recursion depth, literal width, ...)
+	arg   int // site parameter (operand pair and operator of the vm-operands site)
 	fault sim.FaultKind
 }
 
@@ -67,6 +69,20 @@ var c06Sites = []struct {
 	{"syncmap-equal", "equal", true, "(sm%[1]d == sm%[1]db)"},
 	{"json-marshal-cycle", "-", true, "len(import(\"json\").Marshal(cy%d))"}, // a cyclic value handed to a Go encoder: an error, never a runaway recursion
 	{"vm-rem-zero", "-", true, "(7 %% (op(%d) * 0))"},                        // a Go panic raised by a VM operator (integer remainder by zero)
+	{"vm-operands", "-", true, ""},                                           // a binary operator on a drawn pair of operand types (text: c06OperandExpr)
+}
+
+// operands of every value kind and the binary operators: whatever the pair, the VM answers with a value or an error
+var c06Operands = []string{"7", "7u", "0.5", "'a'", "\"s\"", "bytes(\"b\")", "true", "undefined", "[1]", "{a: 1}", "error(\"e\")", "0", "-3", "2.0"}
+var c06Operators = []string{"+", "-", "*", "/", "%", "&", "|", "^", "&^", "<<", ">>", "<", "<=", ">", ">=", "==", "!="}
+
+// c06OperandExpr renders operand pair/operator number arg for probe k; the operands live in variables so that the
+// operator runs in the VM and not in the optimizer.
+func c06OperandExpr(k, arg int) (decl, expr string) {
+	l := c06Operands[arg%len(c06Operands)]
+	r := c06Operands[arg/len(c06Operands)%len(c06Operands)]
+	op := c06Operators[arg/len(c06Operands)/len(c06Operands)%len(c06Operators)]
+	return fmt.Sprintf("xl%d := %s\nxr%d := %s\n", k, l, k, r), fmt.Sprintf("(xl%d %s xr%d)", k, op, k)
 }
 
 func c06Script(probes []c06Probe) string {
@@ -75,6 +91,11 @@ func c06Script(probes []c06Probe) string {
 	for k, p := range probes {
 		site := c06Sites[p.site]
 		text := fmt.Sprintf(site.text, k)
+		if site.name == "vm-operands" {
+			var decl string
+			decl, text = c06OperandExpr(k, p.arg)
+			sb.WriteString(decl)
+		}
 		stmt := text
 		if site.expr {
 			stmt = "log(" + text + ")"
@@ -151,6 +172,21 @@ func c06Script(probes []c06Probe) string {
 	return sb.String()
 }
 
+// c06Storm: N panics recovered in the main function and N in a callee; depth() is the Go stack depth under a host call.
+const c06Storm = sim.Prelude + `global (boom, depth, N)
+k := 0
+d0 := depth()
+for i := 0; i < N; i++ { try { boom() } catch e { k++ } }
+d1 := depth()
+f := func() {
+	c0 := depth()
+	for i := 0; i < N; i++ { try { boom() } catch e { k++ } }
+	return depth() - c0
+}
+r := f()
+return [k, d1 - d0, r]
+`
+
 const c06Fixed = sim.Prelude + "t := 0\nfor i := 0; i < 10; i++ { t += i }\nf := func(a, ...b) { return a + len(b) }\ntry { throw \"z\" } catch e { t += 1 } finally { t += 2 }\nreturn [t, f(1, 2, 3), call(f, 5)]\n"
 const c06FixedWant = "value=[i:48,i:3,i:5] hist=[]"
 
@@ -170,6 +206,9 @@ func c06Run(rc *sim.RunCtx) {
 		p := &probes[k]
 		p.ctx = t.Draw(c06NumCtx)
 		p.site = t.Draw(len(c06Sites))
+		if c06Sites[p.site].name == "vm-operands" {
+			p.arg = t.Draw(len(c06Operands) * len(c06Operands) * len(c06Operators))
+		}
 		switch p.ctx {
 		case c06CtxCallee:
 			p.depth = []int{1, 5, 50, 300}[t.Draw(4)]
@@ -218,6 +257,8 @@ func c06Run(rc *sim.RunCtx) {
 		spec.Pooled = append(spec.Pooled, t.Bool(1, 2))
 		spec.Repeat = append(spec.Repeat, 0)
 	}
+	// in an eighth of the runs the host calls Abort on the VM immediately before op() fails
+	abortMode := t.Bool(1, 8)
 	src := c06Script(probes)
 	noOpt := t.Bool(1, 2)
 	mm := newModuleMap(nil)
@@ -251,6 +292,7 @@ func c06Run(rc *sim.RunCtx) {
 			w.RC = rc
 		}
 		w.NoFaults = noFaults
+		w.AbortOnFault = abortMode && !noFaults
 		sc := &sim.StepCounter{Cap: 400000}
 		restore := sc.Install()
 		defer restore()
@@ -355,6 +397,18 @@ func c06Run(rc *sim.RunCtx) {
 		rc.Fail("panic-escaped", "escaped-without-injected-panic", "clean=%q twin=%q\nscript:\n%s", clean.escaped, twin.escaped, truncateStr(src, 3000))
 		return
 	}
+	// oracle 1b: an Abort issued while the host function was about to fail is not lost in the recovery of its panic
+	if abortMode && len(faulted.firedOps) > 0 {
+		rc.Fault("abort-then-" + faulted.firedOps[0].Kind.String())
+		for name, r := range map[string]result{"panicking": faulted, "error-returning": twin} {
+			// (the VM-aborted error, or the failure itself where the VM gives a panic to no handler: never a value)
+			if r.out.Kind == "value" {
+				rc.Decoded = decoded()
+				rc.Fail("abort-lost-in-recovery", "abort-lost:"+firstCtx, "the host called Abort and then failed (%s, %s run); Run returned no error but %s\nscript:\n%s", faulted.firedOps[0].Kind, name, r.out, truncateStr(src, 3000))
+				return
+			}
+		}
+	}
 	// oracle 2b (structural): a run that returns a value delivered every fired fault to its probe's catch, once
 	if faulted.out.Kind == "value" {
 		count := func(marker string) int {
@@ -416,6 +470,40 @@ func c06Run(rc *sim.RunCtx) {
 		if fx.out.String() != bcs.want {
 			rc.Decoded = decoded()
 			rc.Fail("vm-unusable-after-panic", "fixed-script-differs:"+firstCtx, "after the faulted run the VM ran fixed script %d to %s %s, want %s", round, fx.out, fx.escaped, bcs.want)
+			return
+		}
+	}
+	// oracle 4: recovering from a panic costs nothing that adds up - the Go stack under a host call is as deep after
+	// N recovered panics as before
+	if t.Bool(1, 4) {
+		n := 20 + t.Draw(600)
+		kind := panicKinds[t.Draw(len(panicKinds))]
+		depthOf := func() int {
+			var pcs [1 << 15]uintptr
+			return runtime.Callers(0, pcs[:])
+		}
+		w := sim.NewWorld(&sim.WorldSpec{Name: "storm"}, nil)
+		w.Globals["N"] = ugo.Int(n)
+		w.Globals["depth"] = &ugo.Function{Name: "depth", Value: func(...ugo.Object) (ugo.Object, error) { return ugo.Int(depthOf()), nil }}
+		w.Globals["boom"] = &ugo.Function{Name: "boom", Value: func(...ugo.Object) (ugo.Object, error) {
+			return nil, w.Raise(kind, 0, 0)
+		}}
+		svm := ugo.NewVM(mustCompile(c06Storm, mm, false)).SetRecover(true)
+		var ret ugo.Object
+		var serr error
+		var esc any
+		sc := &sim.StepCounter{Cap: 400000}
+		restore := sc.Install()
+		func() {
+			defer func() { esc = recover() }()
+			ret, serr = svm.Run(w.Globals)
+		}()
+		restore()
+		rc.Fault("recovered-panic-storm")
+		want := fmt.Sprintf("[i:%d,i:0,i:0]", 2*n)
+		if esc != nil || serr != nil || sim.Canon(ret) != want {
+			rc.Decoded = map[string]any{"script": c06Storm, "N": n, "panic_kind": kind.String()}
+			rc.Fail("recovery-accumulates", "panic-storm", "a script that recovers from %d host panics (%s) returned %s err=%v escaped=%v, want %s = [caught, growth of the Go stack under a host call in main, the same in a callee]\nscript:\n%s", 2*n, kind, sim.Canon(ret), serr, esc, want, c06Storm)
 			return
 		}
 	}
